@@ -251,6 +251,14 @@ def parseFirst : List (List Elem) → S → Option (Nat × Wall)
     | some w => some (0, w)
     | none => (parseFirst ls s).map fun p => (p.1 + 1, p.2)
 
+/-- the same loop with an acceptance test after a successful parse (`continue` when it fails) -/
+def parseFirstOk (ok : Wall → Bool) : List (List Elem) → S → Option (Nat × Wall)
+  | [], _ => none
+  | l :: ls, s =>
+    match parseWith l s with
+    | some w => if ok w then some (0, w) else (parseFirstOk ok ls s).map fun p => (p.1 + 1, p.2)
+    | none => (parseFirstOk ok ls s).map fun p => (p.1 + 1, p.2)
+
 /-! ### Boolean, Decimal and Quantity texts -/
 
 def lowerAscii (c : Char) : Char := if 65 ≤ c.toNat && c.toNat ≤ 90 then Char.ofNat (c.toNat + 32) else c
